@@ -558,6 +558,33 @@ theorem mdWF_fromIter (it : List (Nat × I)) : MDWF (mdFromIter it) := by
   · intro p hp; simpa using (List.mem_filter.mp hp).2
   · exact ⟨mdSorted_nil, by simp⟩
 
+/-! ### well-formed multivariate monomials form a commutative monoid -/
+
+/-- `MultiVar` values satisfying the invariant of `MultiDeg` -/
+def WMVar (I : Type) [AddCommMonoid I] [LinearOrder I] [IsOrderedCancelAddMonoid I] :=
+  { m : MVar I // MDWF m.d }
+
+instance : DecidableEq (WMVar I) := fun a b => decidable_of_iff (a.1 = b.1) Subtype.ext_iff.symm
+
+theorem WMVar.ext' {a b : WMVar I} (h : ∀ i, mdGet a.1.d i = mdGet b.1.d i) : a = b := by
+  apply Subtype.ext
+  have := md_ext a.2 b.2 h
+  cases ha : a.1; cases hb : b.1; simp_all
+
+instance : Mul (WMVar I) := ⟨fun a b => ⟨a.1 * b.1, mdWF_mdAdd a.2.1 b.1.d⟩⟩
+instance : One (WMVar I) := ⟨⟨1, ⟨mdSorted_nil, by intro p hp; cases hp⟩⟩⟩
+
+theorem WMVar.get_mul (a b : WMVar I) (i : Nat) :
+    mdGet (a * b).1.d i = mdGet a.1.d i + mdGet b.1.d i := mdGet_mdAdd a.2.1 b.2.1 i
+
+theorem WMVar.get_one (i : Nat) : mdGet (1 : WMVar I).1.d i = 0 := rfl
+
+instance : CommMonoid (WMVar I) where
+  mul_assoc a b c := WMVar.ext' (fun i => by simp only [WMVar.get_mul, add_assoc])
+  one_mul a := WMVar.ext' (fun i => by simp only [WMVar.get_mul, WMVar.get_one, zero_add])
+  mul_one a := WMVar.ext' (fun i => by simp only [WMVar.get_mul, WMVar.get_one, add_zero])
+  mul_comm a b := WMVar.ext' (fun i => by simp only [WMVar.get_mul, add_comm])
+
 end MD
 
 /-! ### `isize`-only and `usize`-only operations -/
